@@ -9,15 +9,17 @@ from . import bufferrules as B
 from .common import receive_loops
 
 EXPLANATION = (
-    "Decides the structural skeleton of the framing contract. C02.LOOP: every receive loop (role query: async function under "
-    "indi/transport awaiting read/readline inside a while) is enumerated; on every path from a non-empty read to the back edge there is "
-    "exactly one buffer.append(chunk or total decode of it) followed by exactly one buffer.process(bound consumer), and the only exit is "
-    "the empty-read break. C02.DECODE: every bytes<->text conversion on the wire uses a total single-byte codec (latin-1 aliases), so it "
-    "can neither raise nor merge bytes across a chunk boundary. C02.APPEND: append writes exactly its argument once; the data "
-    "setter/getter/length are exact. C02.CONSUME: on every path reaching the consumer the buffer was truncated by exactly the end of the "
-    "parsed prefix (same term), once, before the call, with no modification in between. C02.DISCARD: every other truncation cuts at the "
-    "earliest known tag found, else at the last '<', else discards everything only when neither exists; one character is dropped only "
-    "under the enabled-threshold guard. C02.TAGS: the known-tag list is computed from the parser's registry. C02.AUX: the scan depends on the buffer text alone; any cached scan attribute must be re-initialised after every truncation on every path (a stale resume offset makes delivery depend on where the stream was cut)."
+    'Decides the structural skeleton of the framing contract. C02.LOOP: every receive loop (role query: async function under indi/transport '
+    'awaiting read/readline inside a while) is enumerated; on every path from a non-empty read to the back edge there is exactly one '
+    'buffer.append(chunk or total decode of it) followed by exactly one buffer.process(bound consumer), and the only exit is the empty-read '
+    'break. C02.DECODE: every bytes<->text conversion on the wire uses a total single-byte codec (latin-1 aliases), so it can neither raise nor '
+    'merge bytes across a chunk boundary. C02.APPEND: append writes exactly its argument once; the data setter/getter/length are exact. '
+    'C02.CONSUME: on every path reaching the consumer the buffer was truncated by exactly the end of the parsed prefix (same term), once, before '
+    "the call, with no modification in between. C02.DISCARD: every other truncation cuts at the earliest known tag found, else at the last '<', "
+    'else discards everything only when neither exists; one character is dropped only under the enabled-threshold guard. C02.TAGS: the known-tag '
+    "list is computed from the parser's registry. Imported C11.RECOVER: a complete element that the message parser rejects is removed by exactly "
+    'its own length (nothing of the message behind it is lost). C02.AUX: the scan depends on the buffer text alone; any cached scan attribute '
+    'must be re-initialised after every truncation on every path (a stale resume offset makes delivery depend on where the stream was cut).'
 )
 NOT_DECIDED = "that the 'parse every >-terminated prefix' test is right for every XML spelling and partition (expat's behaviour on prefixes)."
 ASSUMPTIONS = ["latin-1 decoding is total and byte-wise", "StringIO.write appends when the stream is never repositioned (checked: no seek/read)"]
